@@ -12,6 +12,10 @@ impl<'a> Paseto<'a, V1, Public> {
         footer: (impl Into<Option<Footer<'a>>> + Copy),
     ) -> Result<String, PasetoError> {
         let decoded_payload = Self::parse_raw_token(signature, footer, &V1::default(), &Public::default())?;
+        //the decoded payload must at least hold the signature
+        if decoded_payload.len() < 256 {
+            return Err(PasetoError::IncorrectSize);
+        }
 
         let ciphertext =
             CipherText::<V1, Public>::try_verify(&decoded_payload, public_key, &footer.into().unwrap_or_default())?
